@@ -231,6 +231,78 @@ def ob_load(n, E, kinds_t, rel_t, ons_t, leafkind, missing, ordered, same=False,
     return True, ""
 
 
+def _extra_root(fa, fb):
+    return {"type": "record", "name": "R9", "namespace": "m", "fields": [
+        {"name": "x", "type": fa}, {"name": "ys", "type": {"type": "array", "items": fb}}]}
+
+
+_extra_root_native = rt.untraced(_extra_root)
+
+
+def ob_load_twice(n, E, kinds_t, rel_t, second):
+    """two load_schema calls through ONE repository object: the second result equals what a fresh repository gives
+    (a repository that keeps what it has read must not hand out objects an earlier load has edited)"""
+    edges = {e: True for e in E}
+    kinds, rel = {}, {}
+    for idx, e in enumerate(E):
+        k = kinds_t[idx]
+        if not (0 <= k < 4):
+            return True, "out of domain"
+        kinds[e] = k
+        rel[e] = rel_t[idx]
+    # second: 0..n-1 -> the second load asks for T<second>; n + a*n + b -> a further root type that uses Ta directly and
+    # then an array of Tb (a != b, both >= 1): a root that reaches shared types in another order than the first load did
+    if not (0 <= second < n + n * n):
+        return True, "out of domain"
+    defs, full = build(n, edges, kinds, rel, (False,) * n, 0, False, ())
+    root2 = None
+    for i in range(n):
+        if second == i:
+            root2 = i
+    if root2 is None:
+        a = b = None
+        for x in range(1, n):
+            for y in range(1, n):
+                if second == n + x * n + y and x != y:
+                    a, b = x, y
+        if a is None:
+            return True, "out of domain"
+        defs = defs + [_extra_root_native(full[a], full[b])]
+        full = full + ["m.R9"]
+        root2 = n
+    files = {f"{DIR}/{full[i]}.avsc": _dumps_native(defs[i]) for i in range(len(defs))}
+    saved = FD.__dict__.get("open")
+    saved_json = FD.json
+    if rt.tokmode():
+        FD.json = _J
+    try:
+        def fresh(i):
+            FD.open = FakeFS(dict(files)).open
+            return S.load_schema(f"{DIR}/{full[i]}.avsc")
+        try:
+            want = fresh(root2)
+            FD.open = FakeFS(dict(files)).open
+            repo = FD.FlatDictRepository(DIR)
+            S.load_schema(full[0], repo=repo)  # with a repository object the argument is the schema's name
+            got = S.load_schema(full[root2], repo=repo)
+        except Exception as e:
+            return False, f"{type(e).__name__}: {e} loading {full[0]} then {full[root2]} through one repository; defs {defs!r}"
+    finally:
+        FD.json = saved_json
+        if saved is None:
+            FD.__dict__.pop("open", None)
+        else:
+            FD.open = saved
+    if strip(got) != strip(want) or S.to_parsing_canonical_form(got) != S.to_parsing_canonical_form(want):
+        return False, f"loading {full[root2]} after {full[0]} through one repository gives {strip(got)!r}, a fresh repository {strip(want)!r}"
+    return True, ""
+
+
+# a type used from two files that has a dependency of its own (quick tier: the two smallest such graphs on 4 types)
+SHARED_WITH_DEP = [((0, 1), (0, 2), (1, 2), (2, 3)), ((0, 1), (0, 2), (1, 3), (2, 3)),
+                   ((0, 1), (0, 2), (1, 3), (2, 3), (3, 4))]  # the last: a diamond whose shared type has a dependency
+
+
 def edge_sets(n):
     pairs = [(i, j) for i in range(n) for j in range(i + 1, n)]
     out = []
@@ -283,8 +355,21 @@ def harnesses(tier, seed):
                 variants.append(("all", f"ob_load({n}, {E!r}, {wrapk}, {wrapr}, ons, leafkind, missing, ordered, same, dotted)",
                                  f"kinds: {kt}, rel: {rt_}, ons: {ot}, leafkind: int, missing: int, ordered: bool, same: bool, dotted: {ot}",
                                  [(one, fr, (False,) * n, 0, -1, False, False, (False,) * n)]))
+            if n == 3:
+                variants.append(("twice", f"ob_load_twice({n}, {E!r}, {wrapk}, {wrapr}, second)",
+                                 f"kinds: {kt}, rel: {rt_}, second: int", [(one, fr, 1), (two, tr, 2), (one, tr, 3 + 1 * 3 + 2)]))
             for suffix, call, ps, samples in variants:
                 hs.append(Harness(f"load.{name}.{suffix}", "props.l19", ps, call + "[0]", replay_call=call,
                                   what=f"load_schema over dependency graph {E} ({suffix})", samples=samples,
                                   key=f"load:{name}:{suffix}"))
+    if not th:
+        for E in SHARED_WITH_DEP:
+            ne, n = len(E), max(j for _, j in E) + 1
+            kt = "Tuple[" + ", ".join(["int"] * ne) + "]"
+            rt_ = "Tuple[" + ", ".join(["bool"] * ne) + "]"
+            name = "n%d.E%s" % (n, "_".join(f"{i}{j}" for i, j in E))
+            call = f"ob_load({n}, {E!r}, kinds, rel, {(False,) * n!r}, 0, -1, False)"
+            hs.append(Harness(f"load.{name}.shared_dep", "props.l19", f"kinds: {kt}, rel: {rt_}", call + "[0]", replay_call=call,
+                              what=f"load_schema over dependency graph {E} (shared type with its own dependency)",
+                              samples=[((0,) * ne, (False,) * ne), (tuple((i + 1) % 4 for i in range(ne)), (True,) * ne)], key=f"load:{name}:shared_dep"))
     return hs
